@@ -444,7 +444,7 @@ example : runSlots true exSlots false
 example : DistinctTyps exSlots ∧ GroupsOk exSlots false exSlots exGroups := by
   refine ⟨by simp [DistinctTyps, exSlots, compile, Kind.hasTyp], ?_⟩
   simp [GroupsOk, GroupOk, ElOk, exSlots, exGroups, compile, Kind.hasTyp, Kind.required, Kind.multi,
-    itemVals, knownTyp, critical, readKind, fits, goMake, maxAlloc, Res.bind, readUintLoop, goInt, beDec, beDecMod]
+    itemVals, knownTyp, critical, readKind, fits, goMake, maxAlloc, Res.bind, readNatLoop, natLenOk, readUintLoop, goInt, beDec, beDecMod]
   constructor <;> intro rest <;> rw [if_neg (by omega)] <;> exact ⟨_, rfl⟩
 
 end LO
